@@ -44,6 +44,8 @@ def handle (toks : List String) (impl : Option String) : Option (String × Strin
         else if valid then (if a == "ok" then "ok" else "bad:valid_option_rejected")
         else if isExc a then "ok"
         else "bad:invalid_option_not_reported_as_exception"
+      | ["fault.preset", _arch, _state] =>
+        if isExc a then "ok" else "bad:save_to_a_failed_stream_not_reported"
       | ["fault.midsave", sc] =>
         if isExc a then "ok"
         else if a == "terminate" ∧ sc.startsWith "csv_ragged" then "known:csv-write-dtor-throws"
